@@ -95,15 +95,37 @@ def run_impl(case):
     drv.agent._rx_chain.sort()
     srcnum = {src_eid(bun['id'][0]): bun['id'][0] for bun in case['bundles']}
     out = []
+    def seen_size():
+        # private state, used only to tell "ignored as already seen" from "absorbed"; None if it is not there any more
+        seen = getattr(drv.agent, '_seen_bundle_ident', None)
+        return len(seen) if seen is not None else None
+
+    def table_now():
+        # the reassembly table (the property's second observable); None if it cannot be read any more
+        try:
+            table = []
+            for (key, ent) in drv.agent._app['fragment']._reassembly.items():
+                first = ent.first_frag
+                first_len = None
+                if first is not None:
+                    first_len = len(bytes(bpdrive_payload(first)))
+                key = key if isinstance(key, tuple) else (key,)
+                table.append([[srcnum.get(part, part if isinstance(part, int) else -1) for part in key], int(ent.total_length),
+                              [[int(atom.lower), int(atom.upper)] for atom in ent.valid], bytes(ent.data).hex(), first_len])
+            table.sort()
+            return table
+        except (AttributeError, KeyError, TypeError, ValueError):
+            return None
+
     for fidx in case['hist']:
-        seen_before = len(drv.agent._seen_bundle_ident)
+        seen_before = seen_size()
         mark = len(log)
         obs = drv.recv(bpdrive.encode_bundle(frag_spec(case, fidx)))
         delivered = log[mark:]
         calls = obs['actions']
         if obs['decode_error'] or obs['recv_exc'] or obs['escaped']:
             code = 90
-        elif len(drv.agent._seen_bundle_ident) == seen_before:
+        elif seen_before is not None and seen_size() == seen_before:
             code = 0
         elif len(calls) >= 2:
             code = 2 if delivered else 3
@@ -111,17 +133,8 @@ def run_impl(case):
             code = 4            # the reassembly step raised: chain aborted with the actions still recorded
         else:
             code = 1
-        table = []
-        for (key, ent) in drv.agent._app['fragment']._reassembly.items():
-            first = ent.first_frag
-            first_len = None
-            if first is not None:
-                first_len = len(bytes(bpdrive_payload(first)))
-            key = key if isinstance(key, tuple) else (key,)
-            table.append([[srcnum.get(part, part if isinstance(part, int) else -1) for part in key], int(ent.total_length),
-                          [[int(atom.lower), int(atom.upper)] for atom in ent.valid], bytes(ent.data).hex(), first_len])
-        table.sort()
-        out.append(dict(code=code, exc=[obs['decode_error'], obs['recv_exc'], obs['escaped']] if code == 90 else None,
+        table = table_now()
+        out.append(dict(code=code, no_seen=seen_before is None, exc=[obs['decode_error'], obs['recv_exc'], obs['escaped']] if code == 90 else None,
                         delivered=[dict(item, id=[srcnum.get(item['src'], -1), item['time'], item['seq']]) for item in delivered],
                         table=table))
     return out
@@ -194,6 +207,24 @@ def canon_impl(obs):
                  table=step['table']) for step in obs]
 
 
+def degrade(obs, want):
+    """ If the implementation's private state could not be read (a refactoring renamed it), compare what is left:
+    drop the table and/or merge the outcome classes 0 (ignored as seen) and 1 (absorbed) on the model side. """
+    no_table = any(step['table'] is None for step in obs)
+    no_seen = any(step.get('no_seen') for step in obs)
+    if not (no_table or no_seen):
+        return (want, False)
+    out = []
+    for step in want:
+        step = dict(step)
+        if no_table:
+            step['table'] = None
+        if no_seen and step['code'] == 0:
+            step['code'] = 1
+        out.append(step)
+    return (out, True)
+
+
 # ---------------------------------------------------------------------------------------------- oracle
 
 def covered(ranges, total):
@@ -240,7 +271,7 @@ def oracle(case, obs):
                             'step %d: bundle %r blocks %r, offset-0 fragment(s) arrived carry %r' % (pos, item['id'], item['blocks'], firsts)))
             if count[bidx] > 1:
                 bad.append(('C06 / bundle delivered more than once', 'step %d: delivery number %d of %r' % (pos, count[bidx], item['id'])))
-        for (key, total, valid, buf, _first) in step['table']:
+        for (key, total, valid, buf, _first) in (step['table'] or []):
             bidx = by_id.get(tuple(key))
             if bidx is None:
                 continue        # table keyed in a way this oracle does not understand: judge by the deliveries alone
@@ -511,9 +542,14 @@ def evaluate(chk, cases, name, with_oracle=True, with_model=True):
         chk.count('bundles_interleaved', len(set(case['frags'][f]['b'] for f in case['hist'])))
         for step in obs:
             chk.count('outcome', {0: 'ignored-seen', 1: 'absorbed', 2: 'delivered', 3: 'complete-but-whole-seen', 4: 'error', 90: 'exception'}[step['code']])
-        if model is not None and canon_impl(obs) != canon_model(model[pos]):
-            want = canon_model(model[pos])
+        want = got = None
+        if model is not None:
+            (want, degraded) = degrade(obs, canon_model(model[pos]))
             got = canon_impl(obs)
+            if degraded:
+                got = [dict(step, table=None) if any(item['table'] is None for item in obs) else step for step in got]
+                chk.count('private_state_unreadable', 'yes')
+        if model is not None and got != want:
             first = next((idx for idx in range(min(len(want), len(got))) if want[idx] != got[idx]), min(len(want), len(got)))
             diffs.append('case %d (%s) step %d: implementation %s / model %s' % (
                 pos, case['kind'], first, json.dumps(got[first] if first < len(got) else None)[:500],
@@ -553,7 +589,7 @@ def replay(chk, path):
         frag = case['frags'][fidx]
         print('  fragment bundle=%r off=%d len=%d total=%d -> code %d, delivered %s, table %s' % (
             case['bundles'][frag['b']]['id'], frag['off'], len(frag['data']) // 2, frag['total'], step['code'],
-            [(d['id'], d['payload'][:40]) for d in step['delivered']], [(e[0], e[1], e[2]) for e in step['table']]))
+            [(d['id'], d['payload'][:40]) for d in step['delivered']], [(e[0], e[1], e[2]) for e in (step['table'] or [])]))
     why = []
     if all(consistent(case, fidx) for fidx in case['hist']):
         for (sig, what) in oracle(case, obs):
